@@ -10,9 +10,12 @@ variables, rule blocks, takes the first that does not raise – whatever it rais
 
 *Values.*  A variable holds a float / 0-d array or a 1-D array (`VarValue`; a scalar is a batch of one row, as in
 `Op.Cascade`).  `input_values` puts the values side by side as the columns of a 2-D array: all of them must have the
-same number of rows.  `output_values` (repaired, F12) first stretches every value that has a single row to the number
-of rows of the others – an output variable without activations holds a single NaN regardless of the batch size.  An
-engine without such variables yields the empty 1-D array.  `values` puts the two arrays side by side. -/
+same number of rows.  `output_values` (repaired, F12 and F17) first stretches every value that has a single row to the
+number of rows of the others – an output variable without activations holds a single NaN regardless of the batch size –
+where "the others" are the values of the input variables as well as those of the output variables: when no output
+variable holds a value per row (all of them disabled, or no rule block enabled) the rows are those of the input values.
+Only the output columns are kept.  An engine without output variables yields the empty 1-D array.  `values` puts the
+two arrays side by side. -/
 
 namespace Op.Engine
 variable {α : Type}
@@ -104,12 +107,13 @@ def stretch (n : Nat) (c : List (X α)) : List (X α) :=
   | [x] => List.replicate n x
   | _ => c
 
-/-- `Engine.output_values`: every value has the number of rows of the batch or a single row (stretched); otherwise
-    `ValueError`; the empty 1-D array for an engine without output variables -/
-def outputValues (vals : List (VarValue α)) : Except Lang.ErrKind (NdArr α) :=
-  let n := batchLength (vals.map (·.rows.length))
-  if vals.all (fun v => v.rows.length == n || v.rows.length == 1) then
-    (if vals.isEmpty then .ok (.vector []) else .ok (ofColumns n (vals.map (fun v => stretch n v.rows))))
+/-- `Engine.output_values`: the values of the input variables and of the output variables are broadcast together –
+    every one of them has the number of rows of the batch or a single row (stretched); otherwise `ValueError` – and the
+    columns of the output variables are kept; the empty 1-D array for an engine without output variables -/
+def outputValues (ins outs : List (VarValue α)) : Except Lang.ErrKind (NdArr α) :=
+  let n := batchLength ((ins ++ outs).map (·.rows.length))
+  if (ins ++ outs).all (fun v => v.rows.length == n || v.rows.length == 1) then
+    (if outs.isEmpty then .ok (.vector []) else .ok (ofColumns n (outs.map (fun v => stretch n v.rows))))
   else .error .value
 
 /-- two arrays side by side (`np.hstack`) as far as the getters produce them: two 1-D arrays are concatenated, two 2-D
@@ -127,7 +131,7 @@ def allValues (ins outs : List (VarValue α)) : Except Lang.ErrKind (NdArr α) :
   match inputValues ins with
   | .error k => .error k
   | .ok a =>
-    match outputValues outs with
+    match outputValues ins outs with
     | .error k => .error k
     | .ok b => sideBySide a b
 
